@@ -11,7 +11,7 @@
 (*   call : [op |-> ..., args]                                             *)
 (*   o    : outcome                                                        *)
 (***************************************************************************)
-EXTENDS MB2Info, TLC
+EXTENDS MB2Header, TLC
 
 Props == {"C01", "C02", "C03", "C04", "C05", "C06", "C07", "C08", "C09", "C10",
           "C11", "C12", "C13", "C14", "C15", "C16", "C17", "C18", "C19", "C20"}
@@ -28,6 +28,9 @@ SetIt(trk, id, v) == [trk EXCEPT !.its = (id :> v) @@ trk.its]
 
 Advance(c, trk, call, o) ==
   CASE call.op = "load" -> [trk EXCEPT !.loaded = IF o.k = "ok" THEN "bi" ELSE "none"]
+    [] call.op = "hload" -> [trk EXCEPT !.loaded = IF o.k = "ok" THEN "hdr" ELSE "none"]
+    [] call.op = "htags" ->
+         IF o.k = "unit" THEN SetIt(trk, call.it, [kind |-> "htags", k |-> 0, cp |-> FALSE, dead |-> FALSE]) ELSE trk
     [] call.op \in {"tags", "module_tags"} ->
          IF o.k = "unit" THEN SetIt(trk, call.it, [kind |-> call.op, k |-> 0, cp |-> FALSE, dead |-> FALSE]) ELSE trk
     [] call.op \in {"efi_areas", "elf_sections", "elf_sections_deprecated"} ->
@@ -276,9 +279,6 @@ C19_Accept(c, trk, call, o) ==
 C_Skipped(c, trk, call, o) ==
   (call.op \in {"next", "len", "size_hint", "clone"} /\ ~HasIt(trk, call.it)) => o.k = "skipped"
 
-\* ---- C01: never outside the region, never a crash, references inside the owning tag ------------
-InfoOps == {"load", "tags", "module_tags", "efi_areas", "elf_sections", "elf_sections_deprecated", "next", "clone",
-            "len", "size_hint", "get", "field", "str", "area", "dbg", "elf_field", "elf_name"}
 \* extents (at, length) carried by an outcome
 ExtOfRec(r) == IF Has(r, "at") THEN {<<r.at, IF Has(r, "sv") THEN r.sv ELSE IF Has(r, "len") THEN r.len ELSE 0>>} ELSE {}
 Exts(o) ==
@@ -287,6 +287,70 @@ Exts(o) ==
          IF Has(o.v, "k") THEN (IF o.v.k = "ok" THEN ExtOfRec(o.v.v) ELSE {}) ELSE ExtOfRec(o.v)
     [] OTHER -> {}
 Inside(e, lo, hi) == e[1] >= lo /\ e[2] >= 0 /\ e[1] + e[2] <= hi
+\* ---- header crate: C09 / C10 / C11 / C13 ---------------------------------------------------------
+HeaderOps == {"hload", "htags", "hget", "hfield", "hacc", "hdbg"}
+IsHdrRead(call) == call.op \in {"hget", "hfield"}
+AcceptHNext(w, k, dead, o) ==
+  IF dead THEN o.k \in {"panic", "none"}
+  ELSE IF k < Len(w.items) THEN
+       LET it == w.items[k + 1] IN
+       /\ o.k = "some" /\ o.v.at = it.at /\ o.v.typ = SubSeq(it.typ, 1, 2) /\ o.v.flags = SubSeq(it.typ, 3, 4)
+       /\ o.v.size = U32Bytes(it.size) /\ o.v.pat = it.at + 8 /\ o.v.plen = it.size - 8 /\ o.v.sv = RoundUp8(it.size)
+  ELSE IF w.fin = "none" THEN o.k = "none" ELSE o.k = "panic"
+HFieldSpec(mem, name, f, it) ==
+  LET K == HeaderKind(name) IN
+  IF name = "info_req" /\ f = "requests" THEN RefSpec(it.at + 8, (it.size - 8) \div 4, it.size - 8)
+  ELSE LET fld == HFieldNamed(K, f) IN
+       IF fld.n = "?" THEN [k |-> "any"] ELSE Exact(Val(ZExt(Bytes(mem, it.at + fld.off, fld.w), fld.rw)))
+AcceptHdrRead(c, trk, call, o) ==
+  IF trk.loaded # "hdr" THEN o.k = "skipped"
+  ELSE LET g == HGetSpec(c.mem, call.kind) IN
+       CASE g.k = "absent" -> o.k = "none"
+         [] g.k = "panic" -> o.k = "panic"
+         [] OTHER -> IF call.op = "hget" THEN (g.k = "free" /\ o.k = "panic") \/ IsView(o, g.it)
+                     ELSE (g.k = "free" /\ o.k = "panic") \/ AcceptBySpec(HFieldSpec(c.mem, call.kind, call.f, g.it), o)
+AcceptHAcc(c, trk, call, o) ==
+  IF trk.loaded # "hdr" THEN o.k = "skipped"
+  ELSE CASE call.f = "header_magic" -> IsVal(o, Bytes(c.mem, 0, 4))
+         [] call.f = "arch" -> IsVal(o, Bytes(c.mem, 4, 4))
+         [] call.f = "length" -> IsVal(o, Bytes(c.mem, 8, 4))
+         [] call.f = "checksum" -> IsVal(o, Bytes(c.mem, 12, 4))
+         [] call.f = "verify_checksum" -> o = BoolVal(TRUE)         \* a loaded header has a valid checksum
+         [] OTHER -> TRUE
+C10_Accept(c, trk, call, o) ==
+  CASE call.op = "hload" -> AcceptHLoad(IsNull(call), c.mem, o)
+    [] call.op = "calc_checksum" ->
+         /\ o.k = "val" /\ ChecksumOk(call.magic, U32Bytes(call.arch), call.length, o.v)
+         /\ o.twin = o.v
+    [] OTHER -> TRUE
+C11_Accept(c, trk, call, o) ==
+  CASE call.op = "hacc" -> AcceptHAcc(c, trk, call, o)
+    [] call.op = "htags" -> IF trk.loaded = "hdr" THEN o.k = "unit" ELSE o.k = "skipped"
+    [] call.op = "next" /\ HasIt(trk, call.it) /\ ItOf(trk, call.it).kind = "htags" ->
+         LET s == ItOf(trk, call.it) IN AcceptHNext(HWalk(c.mem), s.k, s.dead, o)
+    [] IsHdrRead(call) ->
+         IF trk.loaded # "hdr" THEN o.k = "skipped"
+         ELSE LET g == HGetSpec(c.mem, call.kind) IN
+              g.k \in {"absent", "must", "panic"} => AcceptHdrRead(c, trk, call, o)
+    [] OTHER -> TRUE
+\* C05 for the header crate: the information-request list
+C05_HAccept(c, trk, call, o) ==
+  IF ~IsHdrRead(call) \/ trk.loaded # "hdr" \/ call.kind # "info_req" THEN TRUE
+  ELSE AcceptHdrRead(c, trk, call, o)
+\* C09: never outside the declared header, never a crash
+C09_Accept(c, trk, call, o) ==
+  IF call.op \in HeaderOps \/ (call.op \in {"next", "clone"} /\ HasIt(trk, call.it) /\ ItOf(trk, call.it).kind = "htags")
+  THEN /\ Controlled(o)
+       /\ LET L == U32At(c.mem, 8) IN \A e \in Exts(o) : Inside(e, 16, L)
+  ELSE TRUE
+C13_Accept(c, trk, call, o) ==
+  IF call.op # "find_header" THEN TRUE
+  ELSE IF Al(c) # 0 THEN o.k = "err"                \* the statement is about 8-aligned buffers; misaligned ones are refused
+  ELSE AcceptHdrFind(IF Has(c, "memx") THEN HdrFindSpecX(c.memx, 8192) ELSE HdrFindSpec(c.mem, 8192), o)
+
+\* ---- C01: never outside the region, never a crash, references inside the owning tag ------------
+InfoOps == {"load", "tags", "module_tags", "efi_areas", "elf_sections", "elf_sections_deprecated", "next", "clone",
+            "len", "size_hint", "get", "field", "str", "area", "dbg", "elf_field", "elf_name"}
 \* the extent a call's results must stay in
 OwnerExtent(c, trk, call) ==
   LET T == U32At(c.mem, 0) IN
@@ -359,6 +423,25 @@ DesignInfoRead(mem, call) ==
             [] OTHER -> LET K == InfoKind(name) IN
                         StrSpec(Bytes(mem, g.it.at + K.base, g.it.size - K.base), g.it.at + K.base))
 
+\* header getters: find() over the header's tag iterator, then cast
+RECURSIVE DesignHFind(_, _, _, _)
+DesignHFind(mem, end, cur, typ2) ==
+  LET r == DesignTagNext(mem, end, cur, FALSE) IN
+  IF r.o.k = "none" THEN [k |-> "absent"]
+  ELSE IF r.o.k = "panic" THEN [k |-> "panic"]
+  ELSE IF SubSeq(r.o.v.typ, 1, 2) = typ2 THEN [k |-> "found", it |-> [at |-> r.o.v.at, typ |-> r.o.v.typ, size |-> LE4(r.o.v.size)]]
+  ELSE DesignHFind(mem, end, r.cur, typ2)
+DesignHdrRead(mem, call) ==
+  LET K == HeaderKind(call.kind)  f == DesignHFind(mem, U32At(mem, 8), 16, U16Bytes(K.id)) IN
+  CASE f.k = "absent" -> None
+    [] f.k = "panic" -> Panic
+    [] OTHER ->
+         LET cst == IF K.dst THEN DesignCastDst(f.it.at, K.base, K.elem, 4, f.it.size)
+                    ELSE DesignCastSized(f.it.at, RoundUp8(K.wire), f.it.size) IN
+         IF cst.k = "panic" THEN Panic
+         ELSE IF call.op = "hget" THEN Some(ViewRec(f.it))
+         ELSE Canon(HFieldSpec(mem, call.kind, call.f, f.it))
+
 DesignStep(c, ds, call) ==
   CASE call.op = "ref_from_slice" ->
          LET H == HeaderByName(call.h) IN
@@ -395,6 +478,12 @@ DesignStep(c, ds, call) ==
                 [] s.kind = "elf" ->
                      LET r == DesignElfNext(c.mem, s.tag, s.p, s.st) IN
                      [o |-> r.o, ds |-> DsSetIt(ds, call.it, [s EXCEPT !.st = r.st])]
+                [] s.kind = "htags" ->
+                     LET r == DesignTagNext(c.mem, s.end, s.cur, s.dead) IN
+                     [o |-> IF r.o.k # "some" THEN r.o
+                            ELSE Some([at |-> r.o.v.at, typ |-> SubSeq(r.o.v.typ, 1, 2), flags |-> SubSeq(r.o.v.typ, 3, 4),
+                                       size |-> r.o.v.size, pat |-> r.o.v.pat, plen |-> r.o.v.plen, sv |-> r.o.v.sv]),
+                      ds |-> DsSetIt(ds, call.it, [s EXCEPT !.cur = r.cur, !.dead = r.dead])]
                 [] OTHER ->
                      LET r == IF s.kind = "tags" THEN DesignTagNext(c.mem, s.end, s.cur, s.dead)
                               ELSE DesignModNext(c.mem, s.end, s.cur, s.dead) IN
@@ -408,6 +497,29 @@ DesignStep(c, ds, call) ==
               ELSE [o |-> Unit, ds |-> ds]
     [] IsInfoRead(call) ->
          [o |-> IF ds.loaded = "bi" THEN DesignInfoRead(c.mem, call) ELSE Skipped, ds |-> ds]
+    [] call.op = "hload" ->
+         LET r == DesignHLoad(IsNull(call), c.mem) IN
+         [o |-> r, ds |-> [ds EXCEPT !.loaded = IF r.k = "ok" THEN "hdr" ELSE "none"]]
+    [] call.op = "htags" ->
+         IF ds.loaded # "hdr" THEN [o |-> Skipped, ds |-> ds]
+         ELSE [o |-> Unit, ds |-> DsSetIt(ds, call.it, [kind |-> "htags", cur |-> 16, end |-> U32At(c.mem, 8), dead |-> FALSE])]
+    [] call.op = "hacc" ->
+         [o |-> IF ds.loaded # "hdr" THEN Skipped
+                ELSE CASE call.f = "header_magic" -> Val(Bytes(c.mem, 0, 4))
+                       [] call.f = "arch" -> Val(Bytes(c.mem, 4, 4))
+                       [] call.f = "length" -> Val(Bytes(c.mem, 8, 4))
+                       [] call.f = "checksum" -> Val(Bytes(c.mem, 12, 4))
+                       [] OTHER -> BoolVal(TRUE), ds |-> ds]
+    [] IsHdrRead(call) ->
+         [o |-> IF ds.loaded # "hdr" THEN Skipped ELSE DesignHdrRead(c.mem, call), ds |-> ds]
+    [] call.op = "hdbg" -> [o |-> IF ds.loaded = "none" THEN Skipped ELSE Unit, ds |-> ds]
+    [] call.op = "find_header" ->
+         [o |-> IF Al(c) # 0 THEN [k |-> "err"]
+                ELSE IF Has(c, "memx") THEN HdrFindSpecX(c.memx, 8192)     \* design = statement here; MC_FindSmall relates
+                ELSE DesignHdrFind(c.mem, 8192), ds |-> ds]                \* the window scan to the statement
+    [] call.op = "calc_checksum" ->
+         LET v == ChecksumBytes(call.magic, U32Bytes(call.arch), call.length) IN
+         [o |-> [k |-> "val", v |-> v, twin |-> v], ds |-> ds]
     [] call.op = "dbg" ->      \* Debug formatting: only the outcome class is specified (C01: controlled)
          [o |-> IF ds.loaded = "none" THEN Skipped ELSE Unit, ds |-> ds]
     [] OTHER -> [o |-> [k |-> "unsupported"], ds |-> ds]
@@ -418,7 +530,11 @@ AcceptP(p, c, trk, call, o) ==
     [] p = "C02" -> C02_Accept(c, trk, call, o)
     [] p = "C03" -> C03_Accept(c, trk, call, o) /\ C03_InfoRead(c, trk, call, o)
     [] p = "C04" -> C04_Accept(c, trk, call, o)
-    [] p = "C05" -> C05_Accept(c, trk, call, o)
+    [] p = "C05" -> C05_Accept(c, trk, call, o) /\ C05_HAccept(c, trk, call, o)
+    [] p = "C09" -> C09_Accept(c, trk, call, o)
+    [] p = "C10" -> C10_Accept(c, trk, call, o)
+    [] p = "C11" -> C11_Accept(c, trk, call, o)
+    [] p = "C13" -> C13_Accept(c, trk, call, o)
     [] p = "C15" -> C15_Accept(c, trk, call, o)
     [] p = "C17" -> C17_Accept(c, trk, call, o)
     [] p = "C14" -> C14_Accept(c, trk, call, o)
